@@ -136,7 +136,7 @@ def e2e_scenario(bins, idx, ntargets, rng, kinds=None, failing=False, listener=F
         lst = None
         if listener:
             import tail as taillib
-            lst = taillib.Listener(fx, [{"stdout": True, "stderr": True}, {"stdout": True}, {"stderr": True, "targets": [targets[0]["path"]]}][idx % 3])
+            lst = taillib.Listener(fx, [{"stdout": True, "stderr": True}, {"stdout": True}, {"stderr": True, "targets": [targets[0]["path"]]}][(idx // 2) % 3])
             if not lst.ready:
                 raise vlib.ToolError("listener did not come up")
         res = fx.monorail(["run", "-c", "build"] + (["build"] if repeat else []), timeout=240)
@@ -269,7 +269,7 @@ def run(pid, tier):
             return e2e_scenario(bins, i, 6 if i == 3 else 3, rr, kinds=["megabytes_text", "big_incompressible"], failing=True)
         if i == 5:
             # a listener is attached while tasks write output that ends in the middle of a line
-            return e2e_scenario(bins, i, 3, rr, kinds=["no_trailing_newline", "pause_mid_line"], listener=True)
+            return e2e_scenario(bins, 6, 3, rr, kinds=["no_trailing_newline", "no_trailing_newline", "pause_mid_line"], listener=True)
         if i == 6:
             # the same (command, target) executes twice in one run, writing less the second time
             return e2e_scenario(bins, i, 3, rr, repeat=True)
